@@ -141,6 +141,8 @@ class NumpyStub:
             return x
         if isinstance(x, TArr):
             return x
+        if hasattr(x, "lib") and hasattr(x, "values") and isinstance(getattr(x, "values"), Arr):
+            return self.as_arr(x.values, dtype)        # pandas / polars Series convert through __array__
         if isinstance(x, Obj):
             f, _ = obj_cls(x).lookup("__array__")
             if f is not None:
